@@ -1,6 +1,7 @@
 import ColoVerif.Model.Circuit
 import ColoVerif.Gen.OrientTables
 import ColoVerif.Model.OrientRule
+import ColoVerif.Model.LegacyOrientRule
 /-
 C04 — row polarity and orientation constraints: the table-level theorems.
 
